@@ -24,6 +24,8 @@ func init() {
 }
 
 func runC06(c *Ctx) {
+	c.R.Rule("RS-no-request-time-state", "request handling writes no state that outlives the request (package-level variables, objects built at start-up, constructor variables captured by handlers) declared in the packages implementing this property", 1)
+	runStateless(c, "RS-no-request-time-state", "pkg/app", "providers.ProviderData")
 	r := c.R
 	r.Rule("R1-sanitiser-dominance", "every redirect/page-link sink takes GetRedirect's result, \"/\" or a value validated on the path", 8)
 	r.Rule("R2-getredirect", "GetRedirect returns only \"/\" or a candidate with IsValidRedirect true", 2)
@@ -184,6 +186,8 @@ func runC06(c *Ctx) {
 	runC06R7(c, "R7-configured-endpoint-and-rd-source")
 	r.Rule("R8-requested-uri-verbatim", "the page the user asked for is taken verbatim: GetRequestURI returns the X-Forwarded-Uri header value or req.URL.RequestURI() itself, never a cut or rewritten string", 1)
 	runC06R8(c, "R8-requested-uri-verbatim")
+	r.Rule("R10-whitelist-reaches-validator-verbatim", "the operator's whitelist_domains entries are never rewritten between option loading and the redirect validator built from them (a normalising pass that re-joins host and port changes which host:port an entry permits; round 7)", 1)
+	runOptionListsVerbatim(c, "R10-whitelist-reaches-validator-verbatim", "WhitelistDomains")
 	r.Rule("R9-pages-keep-the-target", "the sign-in and error pages embed the redirect target they are handed, unchanged: every Redirect/RedirectURL of the page data is the caller's parameter (or option field) itself, or a constant", 3)
 	runC06R9(c, "R9-pages-keep-the-target")
 	runC06R5(c)
